@@ -11,7 +11,7 @@ MC_BaseCalls == <<
     Call("MkVar", 0, 0, "continuous", B(NoneQ, NoneQ), 0, 0, 0, "x1y"),
     Call("MkVec", 0, 0, "continuous", B(Q(0,1), Q(5,1)), 11, 0, 0, "w"),
     Call("MkVec", 0, 0, "binary", B(NoneQ, NoneQ), 2, 0, 0, "u"),
-    Call("MkMat", 0, 0, "continuous", B(Q(-1,1), NoneQ), 2, 2, 1, "G"),
+    Call("MkMat", 0, 0, "continuous", B(Q(-1,1), NoneQ), 3, 3, 1, "G"),
     Call("Slice", 4, 0, "", NoLit, NoneI, NoneI, -1, ""),
     Call("Slice", 4, 0, "", NoLit, 8, 11, NoneI, ""),
     Call("Slice", 4, 0, "", NoLit, NoneI, NoneI, 5, ""),
@@ -24,9 +24,9 @@ MC_BaseCalls == <<
     Call("MGet", 6, 0, "", NoLit, 0, 3, 1, "")
   >>
 MC_AllNames == {<<"x2">>, <<"x10">>, <<"x1y">>} \cup {<<"w", i>> : i \in 0..10} \cup {<<"u", 0>>, <<"u", 1>>}
-               \cup {<<"G", 0, 0>>, <<"G", 0, 1>>, <<"G", 1, 1>>}
+               \cup {<<"G", i, j>> : i \in 0..2, j \in 0..2}
 MC_En == {"Sum", "LinComb", "Dot", "Index", "MGet", "Diagonal", "Transpose", "CmpLit", "Cmp", "Problem",
-          "SBin", "VBinLit"}
+          "SBin", "VBinLit", "Frobenius"}
 MC_ScalarLits == {LitS("int", Q(2, 1))}
 MC_ArrayLits == {Lit("arr", <<Q(1,1), Q(-2,1), Q(3,1)>>, <<3>>), Lit("arr", <<Q(2,1), Q(5,1)>>, <<2>>),
                  Lit("arr", <<Q(1,1), Q(1,1), Q(1,1), Q(1,1), Q(1,1), Q(1,1), Q(1,1), Q(1,1), Q(1,1), Q(1,1), Q(2,1)>>, <<11>>)}
@@ -36,6 +36,7 @@ MC_Fns == {}
 MC_SOps == {"+"}
 MC_VOps == {"*"}
 MC_Senses == {"<=", "=="}
+MC_ObjCands == {}
 MC_Stages == <<>>
 MC_FinalEn == {"Problem"}
 MC_SingValues == {}
